@@ -28,6 +28,7 @@ func init() {
 		Rules: []Rule{
 			{ID: "C08.R1", Doc: "codec totality: compiler-proved bounds, no other panic site, no recursion, bounded loops", Run: c08r1},
 			{ID: "C08.R2", Doc: "AppendFrame/ParseFrame layouts agree with each other and the spec; AppendVarint/ReadVarint agree on 7-bit little-endian groups with continuation bit 0x80", Run: c08r2},
+			{ID: "C08.R4", Doc: "SplitN builds every frame from the packet: id, kind and control bit are the packet's (a split control packet stays a control packet on the wire)", Run: c08r4},
 			{ID: "C08.R3", Doc: "ParseFrame returns its input unchanged unless ok; the ok return is dominated by length <= len(rem)", Run: c08r3},
 			{ID: "C08.S1", Alias: "C01.R7"},
 		},
@@ -829,4 +830,55 @@ func indexOfCallResult(in ssa.Instruction) bool {
 		}
 	}
 	return false
+}
+
+// c08r4: the frames SplitN yields carry the packet's header fields.
+func c08r4(c *an.Ctx) {
+	fn := c.Fn("drpcwire", "SplitN")
+	c.Analysed(fn)
+	got := map[string]string{} // frame field -> packet field it is set from
+	for _, f := range an.WithAnon(fn) {
+		an.Instrs(f, func(in ssa.Instruction) {
+			st, ok := in.(*ssa.Store)
+			if !ok {
+				return
+			}
+			fa, ok := st.Addr.(*ssa.FieldAddr)
+			if !ok {
+				return
+			}
+			nt, ok := deref(fa.X.Type()).(*types.Named)
+			if !ok || nt.Obj().Name() != "Frame" {
+				return
+			}
+			field := nt.Underlying().(*types.Struct).Field(fa.Field).Name()
+			src := "?"
+			if ld, ok := an.Unwrap(st.Val).(*ssa.UnOp); ok && ld.Op == token.MUL {
+				p := an.PathOf(ld.X)
+				if last := p.Last(); last != nil {
+					if pt, ok := deref(p.Root.Type()).(*types.Named); ok && pt.Obj().Name() == "Packet" || p.Root != nil {
+						src = last.Name()
+					}
+				}
+			}
+			if fld, ok := an.Unwrap(st.Val).(*ssa.Field); ok {
+				if pt, ok := fld.X.Type().(*types.Named); ok && pt.Obj().Name() == "Packet" {
+					src = pt.Underlying().(*types.Struct).Field(fld.Field).Name()
+				}
+			}
+			got[field] = src
+		})
+	}
+	var bad []string
+	for _, f := range []string{"ID", "Kind", "Control"} {
+		if got[f] != f {
+			if got[f] == "" {
+				bad = append(bad, f+" is not set")
+			} else {
+				bad = append(bad, f+" is set from "+got[f])
+			}
+		}
+	}
+	c.Check(len(bad) == 0, "SplitN | every frame carries the packet's id, kind and control bit", c.P.Pos(fn.Pos()), fmt.Sprint(got),
+		"a frame produced by SplitN does not take its header from the packet ("+strings.Join(bad, "; ")+"): the packet that is reassembled from the frames differs from the one that was split")
 }
